@@ -249,20 +249,32 @@ def r4_order(ctx):
     # compute_features: iterates the list it returns
     cf = meths["compute_features"]
     ctx.analysed(cf)
-    loops = [n for n in walk_no_nested(cf, False) if isinstance(n, ast.For)]
     ok = False
-    for lp in loops:
-        calls = [c for c in calls_in(lp) if call_name(c) == "getattr"]
-        if calls:
-            it = norm(lp.iter)
-            rr = [r for r in walk_no_nested(cf, False)
-                  if isinstance(r, ast.Return) and isinstance(
-                      r.value, ast.Tuple)]
-            ok = all(norm(r.value.elts[1]) == it for r in rr) and bool(rr)
-            ctx.check(norm(calls[0].args[1]) == norm(lp.target) and
-                      norm(calls[0].args[0]) == "inst", calls[0],
-                      "feature looked up by its own name on the instance",
-                      "features are looked up under a different name")
+    gcalls = [c for c in ast.walk(cf) if isinstance(c, ast.Call)
+              and call_name(c) == "getattr"]
+    for gc in gcalls:
+        # the enclosing loop: a for statement or a comprehension
+        it = var = None
+        p_ = getattr(gc, "_parent", None)
+        while p_ is not None and p_ is not cf:
+            if isinstance(p_, ast.For):
+                it, var = norm(p_.iter), norm(p_.target)
+                break
+            if isinstance(p_, (ast.ListComp, ast.GeneratorExp)) and \
+                    len(p_.generators) == 1:
+                it = norm(p_.generators[0].iter)
+                var = norm(p_.generators[0].target)
+                break
+            p_ = getattr(p_, "_parent", None)
+        if it is None:
+            continue
+        rr = [r for r in walk_no_nested(cf, False)
+              if isinstance(r, ast.Return) and isinstance(
+                  r.value, ast.Tuple)]
+        ok = all(norm(r.value.elts[1]) == it for r in rr) and bool(rr)
+        ctx.check(norm(gc.args[1]) == var and norm(gc.args[0]) == "inst", gc,
+                  "feature looked up by its own name on the instance",
+                  "features are looked up under a different name")
     ctx.check(ok, cf, "samples computed in the order of the returned names",
               "compute_features returns names in a different order than "
               "the samples were computed")
@@ -296,10 +308,21 @@ def r5_ranges(ctx):
                                 if d is not None)
                 else:
                     vals.append(v)
-            ok = bool(vals) and all(
-                (isinstance(v, ast.Constant) and isinstance(v.value, bool))
-                or isinstance(v, ast.Compare)
-                or norm(v) in ("np.nan", "numpy.nan") for v in vals)
+            def boolish(v):
+                if isinstance(v, ast.Constant):
+                    return isinstance(v.value, bool)
+                if isinstance(v, ast.Compare):
+                    return True
+                if isinstance(v, ast.UnaryOp) and isinstance(v.op, ast.Not):
+                    return True
+                if isinstance(v, ast.BoolOp):
+                    return all(boolish(x) for x in v.values)
+                if isinstance(v, ast.Call) and call_name(v) == "bool":
+                    return True
+                if isinstance(v, ast.IfExp):
+                    return boolish(v.body) and boolish(v.orelse)
+                return norm(v) in ("np.nan", "numpy.nan")
+            ok = bool(vals) and all(boolish(v) for v in vals)
             ctx.check(ok, f, f"{name}: returns bool or NaN",
                       f"binary feature {name} can return something other "
                       "than True/False/NaN: "
